@@ -17,7 +17,7 @@ package geom
 //@ pred MPolyInv(m) = m.ctype < 4 && allocated(m.polys) && (forall k :: 0 <= k && k < len(m.polys) ==> PolyInv(m.polys[k]) && m.polys[k].ctype == m.ctype)
 //@ pred GShape(g) = (g.ptr == nil && g.gtype == 0) || (g.ptr != nil && offset(g.ptr) == 0 && allocated(g.ptr) && ((g.gtype == 0 && dyn(g.ptr) == typeid(GeometryCollection)) || (g.gtype == 1 && dyn(g.ptr) == typeid(Point)) || (g.gtype == 2 && dyn(g.ptr) == typeid(LineString)) || (g.gtype == 3 && dyn(g.ptr) == typeid(Polygon)) || (g.gtype == 4 && dyn(g.ptr) == typeid(MultiPoint)) || (g.gtype == 5 && dyn(g.ptr) == typeid(MultiLineString)) || (g.gtype == 6 && dyn(g.ptr) == typeid(MultiPolygon))))
 //@ pred CTypeOf(g) = ite(g.ptr == nil, 0, ite(g.gtype == 0, deref(g.ptr, GeometryCollection).ctype, ite(g.gtype == 1, deref(g.ptr, Point).coords.Type, ite(g.gtype == 2, deref(g.ptr, LineString).seq.ctype, ite(g.gtype == 3, deref(g.ptr, Polygon).ctype, ite(g.gtype == 4, deref(g.ptr, MultiPoint).ctype, ite(g.gtype == 5, deref(g.ptr, MultiLineString).ctype, deref(g.ptr, MultiPolygon).ctype)))))))
-//@ pred GCInv(c) = c.ctype < 4 && allocated(c.geoms) && (forall k :: 0 <= k && k < len(c.geoms) ==> GInv(c.geoms[k]) && CTypeOf(c.geoms[k]) == c.ctype)
+//@ pred GCInv(c) = c.ctype < 4 && allocated(c.geoms) && (forall k :: 0 <= k && k < len(c.geoms) ==> GShape(c.geoms[k]) && GInv(c.geoms[k]) && CTypeOf(c.geoms[k]) == c.ctype)
 //@ recpred GInv(g) = GShape(g) && (g.ptr != nil ==> (g.gtype == 0 ==> GCInv(deref(g.ptr, GeometryCollection))) && (g.gtype == 1 ==> PtInv(deref(g.ptr, Point))) && (g.gtype == 2 ==> LSInv(deref(g.ptr, LineString))) && (g.gtype == 3 ==> PolyInv(deref(g.ptr, Polygon))) && (g.gtype == 4 ==> MPInv(deref(g.ptr, MultiPoint))) && (g.gtype == 5 ==> MLSInv(deref(g.ptr, MultiLineString))) && (g.gtype == 6 ==> MPolyInv(deref(g.ptr, MultiPolygon))))
 //@ typeinv Geometry GInv
 //@ typeinv Point PtInv
@@ -38,23 +38,33 @@ package geom
 //@   requires GShape(g)
 //@   ensures result == CTypeOf(g)
 //@ func Geometry.Type
+//@   notypeinv
+//@   requires GShape(g)
 //@   ensures result == g.gtype && 0 <= result && result <= 6
 //@ func Geometry.IsGeometryCollection
+//@   notypeinv
 //@   ensures result <==> g.gtype == 0
 //@ func Geometry.IsPoint
+//@   notypeinv
 //@   ensures result <==> g.gtype == 1
 //@ func Geometry.IsLineString
+//@   notypeinv
 //@   ensures result <==> g.gtype == 2
 //@ func Geometry.IsPolygon
+//@   notypeinv
 //@   ensures result <==> g.gtype == 3
 //@ func Geometry.IsMultiPoint
+//@   notypeinv
 //@   ensures result <==> g.gtype == 4
 //@ func Geometry.IsMultiLineString
+//@   notypeinv
 //@   ensures result <==> g.gtype == 5
 //@ func Geometry.IsMultiPolygon
+//@   notypeinv
 //@   ensures result <==> g.gtype == 6
 
 //@ func Geometry.check
+//@   notypeinv
 //@   requires g.gtype == gtype
 
 //@ func Geometry.MustAsGeometryCollection
